@@ -169,6 +169,10 @@ struct BuildCtl {
   // dynamic
   int loopTops = 0, waits = 0, callbacks = 0;
   bool cancelIssued = false;
+  // loop iteration during whose idle wait a completion was last handed over; the
+  // engine consumes it in the following iteration's finished-task pass
+  int lastWaitFireLoop = -10;
+  bool drainStarted = false;
   std::vector<Pending> pending;
   int nextChoice() {
     if (choicePos < choices.size()) return choices[choicePos++];
@@ -328,6 +332,8 @@ struct Sim {
   }
   // Called from inputsAvailable: decide when the completion fires.
   void scheduleCompletion(int tid, std::function<void()> fire) {
+    // completions fired from inside inputsAvailable are consumed by the engine
+    // in the same loop iteration, i.e. before the next LoopTop
     if (ctl.mode == "sync") { fire(); return; }
     if (ctl.mode == "mixed") {
       int c = ctl.nextChoice();
@@ -632,6 +638,12 @@ void Sim::hook(verif::EngineHookPoint p) {
   }
   if (ctl.mode == "threads") return;   // completions come from the pool
   bool drain = p == verif::EngineHookPoint::CancelDrainWait;
+  if (drain && !ctl.drainStarted) {
+    ctl.drainStarted = true;
+    // cancelled right after an idle wait: the engine still holds the completion(s)
+    // handed over there and is about to consume them
+    if (ctl.lastWaitFireLoop == ctl.loopTops - 1) return;
+  }
   if (!drain) {
     ctl.waits++;
     if (ctl.cancelKind == "wait" && ctl.waits == ctl.cancelAt && !ctl.cancelIssued) {
@@ -662,6 +674,7 @@ void Sim::hook(verif::EngineHookPoint p) {
     fire.push_back(std::move(ctl.pending[j]));
     ctl.pending.erase(ctl.pending.begin() + j);
   }
+  if (!drain) ctl.lastWaitFireLoop = ctl.loopTops;
   for (auto& p2 : fire) p2.fire();
 }
 
